@@ -228,13 +228,7 @@ async fn update_provision_state(
         #[cfg(gpa_verif)]
         crate::verif_hook::delay_point("provision_update").await;
         if provision_state.contains(ProvisionFlags::ALL_READY) {
-            if let Err(e) = provision_shared_state.set_provision_finished(true).await {
-                // log the error and continue
-                logger::write_error(format!(
-                    "update_provision_state::Failed to set provision finished with error: {e}"
-                ));
-            }
-
+            // the provision finished time_tick is set together with the state update
             // write provision success state here
             write_provision_state(
                 provision_dir,
@@ -273,14 +267,10 @@ async fn reset_provision_state(
     };
     #[cfg(gpa_verif)]
     crate::verif_hook::delay_point("provision_reset").await;
-    if let Err(e) = provision_shared_state
-        .set_provision_finished(provision_state.contains(ProvisionFlags::ALL_READY))
-        .await
-    {
-        logger::write_error(format!(
-            "reset_provision_state::Failed to set provision finished with error: {e}"
-        ));
-    }
+    // the provision finished time_tick is reset together with the state
+    logger::write(format!(
+        "reset_provision_state:: provision state is '{provision_state:?}' after reset"
+    ));
 }
 
 /// Update provision state when provision timedout
